@@ -579,6 +579,25 @@ func gcsSortedRule(p *Program, r *Report, rule string) int {
 				}
 			}
 		}
+		// the result of an in-repo helper that sorts what it returns (third benign round: h.sortedHashes(data))
+		if c, ok := v.(*ssa.Call); ok && depth < 3 {
+			if cal := c.Call.StaticCallee(); cal != nil && p.InRepo(cal) && len(cal.Blocks) > 0 {
+				all := true
+				nret := 0
+				for _, ret := range returnsOf(cal) {
+					if len(ret.Results) == 0 || isNilConst(ret.Results[0]) {
+						continue
+					}
+					nret++
+					if ok, _ := sortedAt(cal, ret.Results[0], ret.Block(), depth+1); !ok {
+						all = false
+					}
+				}
+				if nret > 0 && all {
+					return true, "sorted by " + FnName(cal) + " before it is returned"
+				}
+			}
+		}
 		if pa, ok := v.(*ssa.Parameter); ok && depth < 3 {
 			idx := paramIndex(fn, pa)
 			sites := callSites(fn)
